@@ -162,6 +162,19 @@ def c14(res, rng, tier):
                            "chunked": io_[:600], "single_read": base[b][:600], "cmd": "echo '%s' | harness/go/implrun" % lines[i][:600]})
         else:
             nontriv += 1
+    # theorem C14_chunking (Proofs/BufioFacts.v): the reader programs on the bufio machine (L1) = on the
+    # flat input.  The L1 machine itself is run here on the same schedules and compared with the
+    # implementation's chunked runs.
+    l1_idx = [i for i in range(len(lines)) if len(meta[i][2]) <= 6000 and "#staleappend" not in model[meta[i][0]]]
+    step = max(1, len(l1_idx) // (3000 if q else 40000))
+    l1_idx = l1_idx[::step]
+    l1 = C.modelrun([lines[i] for i in l1_idx])
+    for j, i in enumerate(l1_idx):
+        if strip_model(l1[j]) != impl[i]:
+            b, tag, d, pd, su, sc = meta[i]
+            res.violation("bufio-level model (L1) vs implementation on schedule %s: model %s, implementation %s" % (sc, l1[j][:120], impl[i][:120]),
+                          {"kind": "correspondence", "theorem": "C14_chunking / Model/Bufio.v", "case": lines[i][:800], "model": l1[j][:400], "impl": impl[i][:400]}, found_input=False)
+            break
     mism = 0
     for b, bo in enumerate(base):
         mo = model[b]
@@ -174,7 +187,7 @@ def c14(res, rng, tier):
     res.coverage.update({
         "evaluations": len(lines) + len(base_lines), "distinct_nontrivial": nontriv,
         "rule": "valid and invalid inputs (kept failures, grammar pickles, length bombs, samples of corpus / mutations / soup / sweep, text lines > 4096 bytes, every counted-read opcode, streams of pickles) x schedules {1-byte, 1-byte with final data+EOF, 2-byte, zero-length reads first, every single split point for inputs <= 200 bytes, zero-then-split, split with data+EOF, splits at 4095/4096/4097/8191/8192, fixed 4095/4096/4097-byte chunks, 8 random multi-way splits}; the whole (value, error) sequence of successive Decode calls compared with the single-Read run; non-trivial = chunked runs equal to the single-Read run",
-        "programs": len(lines), "disagreements_checked": len(lines), "inputs": len(sel), "input_tags": tag_hist([(m[1],) for m in meta])})
+        "programs": len(lines), "disagreements_checked": len(lines), "inputs": len(sel), "l1_machine_runs_compared": len(l1_idx), "input_tags": tag_hist([(m[1],) for m in meta])})
     res.samples = [{"input_hex": meta[i][2].hex()[:80], "schedule": meta[i][5], "impl": impl[i][:120]} for i in range(0, len(lines), max(1, len(lines) // 6))]
 
 # =============================================================================================
